@@ -607,7 +607,7 @@ class DelHooks(SendHooks):
         b = g1(E, '$delbyte')
         num = b & 255 if isinstance(b, int) else None
         used = g1(E, 'G:d[%s][%s].used' % (c, num)) if num is not None else None
-        ok = num is not None and 0 <= num < self.CONC and used == 1
+        ok = num is not None and 0 <= num < getattr(self, 'conc', self.CONC) and used == 1
         self.site('del:state-changes-only-for-an-in-range-delivery-slot-in-use', x, ok,
                   '%s for delivery number %s (concurrency %d) with used=%s: a forged or stale report changes a recipient\'s state' % (what, num, self.CONC, used), E)
 
@@ -727,6 +727,23 @@ def analyse_del_dochan(db, rep):
     if counts.get('mark', 0) < 2 or counts.get('bounce', 0) < 1 or counts.get('job_close', 0) < 3:
         if all(v[0] for v in sites.values()):
             raise AnalysisBroken('del_dochan: markdone/addbounce/job_close not explored (%s)' % counts)
+    # a channel with up to 255 slots: the delivery number is the report's first byte as 0..255 (a report for delivery 200 is acted on)
+    for c in (0, 1):
+        H = DelHooks(0, c)
+        H.conc = 255
+        eng = Engine(db, prog, H, max_states=300000)
+        st = {'%s::%s' % (eng.frame_id(fn), fn.params[0]): fs(c), 'G:dline[%d].s[1]' % c: fs(ord('D')), '$letter': fs('D'), 'G:dline[%d].s[0]' % c: fs(200 - 256), '$delbyte': fs(200 - 256),
+              'G:concurrency[%d]' % c: fs(255), 'G:jo[%d].flagdying' % DelHooks.JOB: fs(0), 'G:jo[%d].numtodo' % DelHooks.JOB: fs(3), 'G:jo[%d].id' % DelHooks.JOB: fs(77),
+              'G:d[%d][200].used' % c: fs(1), 'G:d[%d][200].mpos' % c: fs(9200), 'G:d[%d][200].j' % c: fs(DelHooks.JOB)}
+        eng.run(fn, st)
+        rep.count_states(eng.states, eng.transitions)
+        acted = H.counts.get('mark', 0) >= 1 and H.counts.get('bounce', 0) >= 1
+        k = 'del:delivery-numbers-128..255-are-acted-on'
+        if k not in sites or sites[k][0]:
+            sites[k] = (acted, 'qmail-send.c:del_dochan', 'a D report for delivery number 200 (slot in use, concurrency 255) leads to %d addbounce() and %d markdone() call(s): the report byte must be read as 0..255, or failures of busy channels are never bounced' % (H.counts.get('bounce', 0), H.counts.get('mark', 0)), [])
+        for k2, v2 in H.sites.items():
+            if not v2[0] and (k2 not in sites or sites[k2][0]):
+                sites[k2] = v2
     return sites
 
 
